@@ -93,6 +93,7 @@ def test(inp):
             cases['one value'] = base.assign({g: (v.dims, vals, v.attrs, v.encoding)}) if g not in base.coords else \
                 base.assign_coords({g: (v.dims, vals, v.attrs)})
         cases['attribute added'] = _with_attrs(base, g, dict(v.attrs, verif_extra='x'))
+        cases['underscore attribute added'] = _with_attrs(base, g, dict(v.attrs, _CoordinateAxisType='Lat'))
         if v.attrs:
             k0 = sorted(v.attrs)[-1]
             cases['attribute removed'] = None
